@@ -547,7 +547,12 @@ func runEpub(c *fw.Ctx, j int) {
 		excl += d.Excludable
 		name := fmt.Sprintf("text/ch%d.xhtml", k+1)
 		ghost(k)
-		fmt.Fprintf(&man, "<item id=\"ch%d\" href=\"%s\" media-type=\"application/xhtml+xml\"/>\n", k+1, name)
+		mt := "application/xhtml+xml"
+		if mr := c.Rand("epub", j, "mediatype", k); mr.Intn(5) == 0 { // media type names are case-insensitive (RFC 2045 5.1)
+			mt = []string{"Application/XHTML+XML", "application/XHTML+xml", "APPLICATION/xhtml+xml"}[mr.Intn(3)]
+			cr.see("feature", "epub-media-type-other-case")
+		}
+		fmt.Fprintf(&man, "<item id=\"ch%d\" href=\"%s\" media-type=\"%s\"/>\n", k+1, name, mt)
 		fmt.Fprintf(&spine, "<itemref idref=\"ch%d\"/>\n", k+1)
 		fmt.Fprintf(&nav, "<li><a href=\"%s\">Chapter %d</a></li>", name, k+1)
 		chapterMembers = append(chapterMembers, epubw.Member{Name: "OEBPS/" + name, Data: d.HTML})
